@@ -82,7 +82,7 @@ def run_find_snv_candidates(
     re_nucleotide = re.compile("[ACGTNacgtn]")
     re_indel = re.compile("[-\\+]([0-9]+)")
     re_ref = re.compile("[,\\.]")
-    re_ignore = re.compile("([\\$\\*]|\\^.)")
+    re_ignore = re.compile("([\\$\\*<>]|\\^.)")
 
     bamfile = pysam.AlignmentFile(bam, "rb")
     for pileupcolumn in bamfile.pileup(
